@@ -13,7 +13,11 @@ def _gen(outdir):
 
 reg(Prop(
     'C03',
-    [Harness('c03_options', libs=('options', 'core'), parts=16, gen=_gen, thorough_cfg='asan1')],
+    [Harness('c03_options', libs=('options', 'core'), parts=16, gen=_gen, thorough_cfg='asan1'),
+     # thorough only: the quick workload without sanitizer instrumentation under valgrind memcheck (libstdc++.so -
+     # iostream, locale, codecvt, the extern-template std::string members - is not ASan-instrumented)
+     Harness('c03_options_memcheck', src=['c03_options.cpp'], libs=('options', 'core'), cfg='plain', runner='valgrind',
+             tiers=('thorough',), parts=16, gen=_gen, run_tier='quick', alarm=900)],
     rule='A case is one (parser shape, argument vector) pair. 48 parser shapes are generated from one description each (harness/gen/c03_shapes.py '
          'emits both the real fcppt.options expression and the shape description): every leaf (argument, switch, flag, option, unit, unit_switch) '
          'with value types int/unsigned/std::string/enum, products in both orders, optional/many over leaves, products and sums, sums of products, '
